@@ -18,6 +18,7 @@
 #include <sys/types.h>
 #include <time.h>
 #include <unistd.h>
+#include <sys/syscall.h>
 #include <functional>
 #include <map>
 #include <string>
@@ -97,7 +98,12 @@ inline bool gate(Call &c)
     }
     return false;
 }
-inline void record(const Call &c) { if (logging) log.push_back(c); }
+inline void record(const Call &c)
+{
+    if (logging) log.push_back(c);
+    static const bool dbg = getenv("VFS_DEBUG") != nullptr;
+    if (dbg) { char b[600]; int n = snprintf(b, sizeof b, "vdev[%d] %s %s %s n=%ld flags=%x -> %ld%s\n", (int)getpid(), c.name, c.path.c_str(), c.path2.c_str(), c.n, c.flags, c.result, c.mutating ? " (mutating)" : ""); if (n > 0) syscall(1 /*SYS_write*/, 2, b, (size_t)n); }
+}
 
 } // namespace vdev
 
